@@ -443,7 +443,7 @@ def layout(addr, values, region):
     return mem
 
 
-def c03_case(rng, shape, read_key, n, declared, computed, pre, other_contract=False, collect_all=False, maddr=0):
+def c03_case(rng, shape, read_key, n, declared, computed, pre, other_contract=False, collect_all=False, maddr=0, same_contract=None):
     """Builds one two-pass case and its independently computed expectation.
     declared: [(key, value)] declared by the solution; computed: (key, value) computed by a first-pass data-output leaf or None;
     pre: {tuple(key): value}; shape selects where the post-state read sits in the graph."""
@@ -451,6 +451,10 @@ def c03_case(rng, shape, read_key, n, declared, computed, pre, other_contract=Fa
     proposed = {tuple(k): list(v) for k, v in declared}
     if computed:
         proposed[tuple(computed[0])] = list(computed[1])
+
+    if same_contract:
+        # another solution of the SAME contract (its own predicate) proposing a value for a slot nobody else writes
+        proposed[tuple(same_contract[0])] = list(same_contract[1])
 
     def overlay(k):
         t = tuple(k)
@@ -497,10 +501,25 @@ def c03_case(rng, shape, read_key, n, declared, computed, pre, other_contract=Fa
         sols.append((ADDR_C, ADDR_B, [], [(list(read_key), [424242])]))
         preds.append((ADDR_C, ADDR_B, (([(EDGE_MAX, sha(prog_bytes(p_sat())))]), [])))
         pbytes = pbytes + [prog_bytes(p_sat())]
+    extra = ""
+    fmt = lambda ms: "[" + ",".join("[" + ",".join(map(str, k)) + "]->[" + ",".join(map(str, v)) + "]" for k, v in ms) + "]"
+    if other_contract:
+        extra += " " + fmt([(list(read_key), [424242])])
+    if same_contract:
+        ADDR_D = bytes([0xDD]) * 32
+        sc = (contract, ADDR_D, [], [(list(same_contract[0]), list(same_contract[1]))])
+        if same_contract[2]:
+            sols.insert(0, sc)        # before the reading solution
+        else:
+            sols.append(sc)
+        preds.append((contract, ADDR_D, (([(EDGE_MAX, sha(prog_bytes(p_sat())))]), [])))
+        pbytes = pbytes + [prog_bytes(p_sat())]
     state = [(contract, list(k), list(v)) for k, v in pre.items()]
     case = check_case("twopass", collect_all, sols, preds, pbytes, state)
-    fmt = lambda ms: "[" + ",".join("[" + ",".join(map(str, k)) + "]->[" + ",".join(map(str, v)) + "]" for k, v in ms) + "]"
-    expected = "ok * " + fmt(exp_muts) + (" " + fmt([(list(read_key), [424242])]) if other_contract else "")
+    expected = "ok * " + fmt(exp_muts) + extra
+    if same_contract:
+        own = fmt([(list(same_contract[0]), list(same_contract[1]))])
+        expected = ("ok * " + own + " " + fmt(exp_muts) + extra) if same_contract[2] else (expected + " " + own)
     return case, expected
 
 
@@ -546,8 +565,15 @@ def c03_cases(rng, tier):
                 computed = (list(k), [rng.choice([rng.randrange(100, 200), 130, 131, 257, 386])] * rng.choice([0, 1, 3]))
         pre = {tuple(rng.choice([0, 1, 2, 3, 4, I64_MAX, I64_MIN]) for _ in range(len(rk))): [rng.randrange(1000, 1100)] * rng.choice([0, 1, 2])
                for _ in range(rng.randrange(0, 4))}
-        c, e = c03_case(rng, shape, rk, n, declared, computed, pre, other_contract=rng.random() < 0.2, collect_all=rng.random() < 0.5,
-                        maddr=rng.choice([0, 0, 0, 1, 2, 257]))
+        same = None
+        if rng.random() < 0.4:
+            used_all = set(used) | ({tuple(computed[0])} if computed else set()) | {(7777,)}
+            cand = [tuple(rk)] + [tuple(rng.choice([0, 1, 2, 3, 4, I64_MAX]) for _ in range(len(rk))) for _ in range(3)]
+            cand = [k for k in cand if k not in used_all]
+            if cand:
+                same = (list(rng.choice(cand)), [rng.randrange(500, 600)] * rng.choice([0, 1, 2]), rng.random() < 0.5)
+        c, e = c03_case(rng, shape, rk, n, declared, computed, pre, other_contract=rng.random() < 0.2 and not same, collect_all=rng.random() < 0.5,
+                        maddr=rng.choice([0, 0, 0, 1, 2, 257]), same_contract=same)
         cases.append(c)
         oracles.append("o_expect " + expect_tok(e) + " " + c)
     return cases, oracles
@@ -595,6 +621,14 @@ def c04_set(rng, clash=None):
             plan[i]["computed"] = (k, va); plan[j]["computed"] = (k, vb)
         # someone reads the contested slot from post-state, so a last-writer-wins overlay shows in the outputs
         plan[rng.choice([i, j])]["reader"] = k
+        # a solution of the *other* contract may legitimately write the same key (it sits between the two in some orderings)
+        others = [t for t in range(n) if t not in (i, j)]
+        if others and rng.random() < 0.6:
+            t = rng.choice(others)
+            plan[t]["contract"] = ADDR_C if plan[i]["contract"] == ADDR_A else ADDR_A
+            plan[t]["declared"] = [(kk, vv) for kk, vv in plan[t]["declared"] if kk != k] + [(k, [rng.randrange(300, 350)])]
+            if plan[t]["computed"] and plan[t]["computed"][0] == k:
+                plan[t]["computed"] = None
         if clash != "dd":
             # the other clashes must survive check_set: drop accidental declared duplicates
             pass
@@ -689,26 +723,61 @@ def ref_eval(children, kinds):
                 r = (s, m)            # a leaf: its inputs
         memo[v] = r
         return r
-    failed, unsat, muts = False, [], []
-    for v in range(n):
-        o = out(v)
-        k, a = kinds[v]
-        if o is None or k == "fail":
-            failed = True
-            continue
-        if children[v]:
-            continue
-        if k == "unsat" or (k == "sum" and sum(o[0]) != a):
-            unsat.append(v)
-        elif k == "report":
-            muts.append(([a], list(o[0])))
-        elif k == "reportmem":
-            muts.append(([a], list(o[1])))
-    if failed:
-        return ("err",)
-    if unsat:
-        return ("unsat", unsat)
-    return ("ok", muts)
+    # deferred = post-state readers and everything below them (evaluated in the second pass)
+    deferred = set(v for v in range(n) if kinds[v][0] == "reader")
+    changed = True
+    while changed:
+        changed = False
+        for u in list(deferred):
+            for c in children[u]:
+                if c not in deferred:
+                    deferred.add(c)
+                    changed = True
+
+    def verdict(nodes):
+        failed, unsat, muts = False, [], []
+        for v in nodes:
+            o = out(v)
+            k, a = kinds[v]
+            if o is None or k == "fail":
+                failed = True
+                continue
+            if children[v]:
+                continue
+            if k == "unsat" or (k == "sum" and sum(o[0]) != a):
+                unsat.append(v)
+            elif k == "report":
+                muts.append(([a], list(o[0])))
+            elif k == "reportmem":
+                muts.append(([a], list(o[1])))
+        if failed:
+            return ("err",)
+        if unsat:
+            return ("unsat", unsat)
+        return ("ok", muts)
+    p1 = verdict([v for v in range(n) if v not in deferred])
+    p2 = verdict([v for v in range(n) if v in deferred])
+    return p1, p2
+
+
+def two_pass_expectation(p1, p2, contracts):
+    """the expected o_ref text for solutions that all solve the same predicate (same programs): a failure of the first pass is
+    reported before the second pass runs; data outputs of same-contract solutions collide (same keys) -> duplicate error"""
+    n = len(contracts)
+    same = any(contracts.count(c) > 1 for c in contracts)
+    if p1[0] == "err":
+        return "err"
+    if p1[0] == "unsat":
+        return "unsat " + ";".join(f"{i}:" + ",".join(map(str, sorted(p1[1]))) for i in range(n))
+    if p1[1] and same:
+        return "err"
+    if p2[0] == "err":
+        return "err"
+    if p2[0] == "unsat":
+        return "unsat " + ";".join(f"{i}:" + ",".join(map(str, sorted(p2[1]))) for i in range(n))
+    if p2[1] and same:
+        return "err"
+    return "ok " + " ".join(fmt_muts(p1[1] + p2[1]) for _ in range(n))
 
 
 def kinds_programs(children, kinds):
@@ -739,16 +808,18 @@ def random_kinds(rng, children, fail_rate=0.08):
             kinds.append(rng.choice([("sum", None), ("sum", None), ("report", 5000 + v), ("report", 5000 + v), ("reportmem", 5000 + v), ("sat", 0)]
                                     + ([("unsat", 0), ("fail", 0)] if rng.random() < 3 * fail_rate else [])))
     # fill in the sums from the reference itself (a spoiled sum makes the leaf unsatisfied)
-    probe = ref_eval(children, [(k if k != "sum" else "sat", a) for k, a in kinds])
     for v, (k, a) in enumerate(kinds):
         if k == "sum":
             # compute the inherited stack through the reference
             tmp = list(kinds)
             tmp[v] = ("report", -1)
-            r = ref_eval(children, [(kk if kk != "sum" else "sat", aa) for kk, aa in tmp])
+            q1, q2 = ref_eval(children, [(kk if kk != "sum" else "sat", aa) for kk, aa in tmp])
             inherited = None
-            if r[0] == "ok":
-                inherited = [val for key, val in r[1] if key == [-1]][0]
+            for q in (q1, q2):
+                if q[0] == "ok":
+                    for key, val in q[1]:
+                        if key == [-1]:
+                            inherited = val
             if not inherited:
                 kinds[v] = ("sat", 0)
             else:
@@ -803,11 +874,8 @@ def c01_graph_cases(rng, children, n_numberings, collect_all, n_sols):
         sols = [(ADDR_A, ADDR_B, [], [])] + [(ADDR_C if i % 2 == 0 else ADDR_A, ADDR_B, [[i]], []) for i in range(n_sols - 1)]
         preds = [(ADDR_A, ADDR_B, pred), (ADDR_C, ADDR_B, pred)]
         case = check_case("twopass", collect_all, sols, preds, pbytes, [])
-        ref = ref_eval(ch2, k2)
-        # solutions of the same contract run the same programs: their reported keys collide -> the set is rejected as a duplicate
-        verdicts = [ref] * n_sols
-        dup = ref[0] == "ok" and ref[1] and sum(1 for s in sols if s[0] == ADDR_A) > 1 or (ref[0] == "ok" and ref[1] and sum(1 for s in sols if s[0] == ADDR_C) > 1)
-        exp = "err" if dup else ref_expectation(verdicts)
+        p1, p2 = ref_eval(ch2, k2)
+        exp = two_pass_expectation(p1, p2, [s[0] for s in sols])
         cases.append(case)
         oracles.append("o_ref " + expect_tok(exp) + " " + case)
         if monotone_on_parents(children, perm):
